@@ -5,6 +5,8 @@ C01); each rule is per task execution, hence holds under every schedule:
  R1 every task slot taken (get_free_element) is published exactly once on every path;
  R2 every photon buffer taken is used (attached / activated / freed) and the input buffer of a traversal
     task is freed on every path; a re-emission task re-attaches or frees its input buffer;
+ R3 a buffer read from / registered as the active buffer of a direction is detached (another buffer or
+    NEIGHBOUR_OUTSIDE registered for that direction) on every path on which it is attached to a new task;
  R4 the done-counter is advanced exactly once per traversal / re-emission task by
     (size of the input buffer) - (sizes of the buffers in which packets were stored for later work);
  R5 worker loop: unlock once, free the executed slot (unless task plotting), publish every returned task,
@@ -140,6 +142,46 @@ def rule_R2(chk, fn, label):
                         (label, key[2] if key else "?", node.line()), where(node.ast, fn),
                         "the freshly taken buffer can be dropped", function=fn["full"],
                         construct="buffer %s use" % (key[2] if key else "?"))
+    return n
+
+
+def rule_R3(chk, fn, label):
+    """Detach-on-launch: a buffer index read from get_active_buffer(d) (or registered by set_active_buffer(d, v)) that
+    is attached to a new task is, before the variable dies, replaced as active buffer of d by something else."""
+    g = C.CFG(fn)
+    n = 0
+    for nd, d in acquisition_decls(g, "get_active_buffer"):
+        key = ("local", d["id"], d["n"])
+        dirarg = C.pretty(C.strip_casts(d["init"])["a"][0])
+        attaches = [x for node in g.nodes for x in calls_in(node, lambda y: C.is_call(y, name="set_buffer", cls="Task")
+                                                            and y["a"] and C.ref_key(y["a"][0]) == key)]
+        if not attaches:
+            continue        # read-only use (largest-buffer bookkeeping)
+
+        def tr(node, st, key=key, dirarg=dirarg, nd=nd):
+            active, attached = st
+            if node.id == nd.id:
+                return [(None, (True, False))]
+            for x in calls_in(node, lambda y: C.is_call(y)):
+                if x.get("n") == "set_active_buffer" and len(x["a"]) == 2 and C.pretty(x["a"][0]) == dirarg:
+                    active = C.ref_key(x["a"][1]) == key
+                elif x.get("n") == "set_buffer" and x.get("cls", "").startswith("Task") and x["a"] and \
+                        C.ref_key(x["a"][0]) == key:
+                    attached = True
+            return [(None, (active, attached))]
+        ex = C.explore(g, (False, False), tr)
+        ends = set(ex.at.get(nd.id, set())) | set(ex.at.get(g.exit.id, set()))
+        bad = [st for st in ends if st[0] and st[1]]
+        n += 1
+        where_bad = ""
+        if bad:
+            tgt = nd.id if bad[0] in ex.at.get(nd.id, set()) else g.exit.id
+            where_bad = " (path through lines %s)" % ex.path_lines(tgt, bad[0])
+        chk.require(not bad, "R3", "%s: buffer `%s` (active buffer of direction %s, line %s) is detached before it is "
+                    "launched as a task" % (label, d["n"], dirarg, d["l"]), where(d, fn),
+                    "the buffer is attached to a new task while it is still registered as the active buffer of direction "
+                    "%s%s: later packets are appended to a buffer that is already being processed / the buffer is launched "
+                    "twice" % (dirarg, where_bad), function=fn["full"], construct="detach %s" % d["n"])
     return n
 
 
@@ -565,7 +607,7 @@ def run(chk, prog):
         "not decided.")
     chk.assumptions += ["C08: containers hand every slot / task to one owner",
                         "the run flag (a plain bool) is eventually seen by every worker thread"]
-    n = {"R1": 0, "R2": 0, "R4": 0, "R5": 0, "R6": 0, "R7": 0, "R8": 0}
+    n = {"R1": 0, "R2": 0, "R3": 0, "R4": 0, "R5": 0, "R6": 0, "R7": 0, "R8": 0}
     for unit_name, drvname in (("TaskBasedIonizationSimulation.cpp", "TaskBasedIonizationSimulation::run"),
                                ("TaskBasedRadiationHydrodynamicsSimulation.cpp",
                                 "TaskBasedRadiationHydrodynamicsSimulation::do_simulation")):
@@ -586,6 +628,7 @@ def run(chk, prog):
                 label = "%s %s" % (short, d["cls"])
                 n["R1"] += rule_R1(chk, d, label)
                 n["R2"] += rule_R2(chk, d, label)
+                n["R3"] += rule_R3(chk, d, label)
                 if d["clsq"] == "PhotonTraversalTaskContext":
                     n["R2"] += rule_R2_input(chk, d, label, False)
                     n["R4"] += rule_R4(chk, d, label)
@@ -605,6 +648,7 @@ def run(chk, prog):
     chk.extra["obligations_per_rule"] = n
     chk.floor("R1", n["R1"], 12)
     chk.floor("R2", n["R2"], 8)
+    chk.floor("R3", n["R3"], 3)
     chk.floor("R4", n["R4"], 6)
     chk.floor("R5", n["R5"], 8)
     chk.floor("R6", n["R6"], 3)
